@@ -3,6 +3,7 @@ mod c04;
 mod c05;
 mod c06;
 mod c07;
+mod c09;
 mod c12;
 mod c11;
 mod c13;
@@ -49,6 +50,10 @@ fn main() {
         "c05" | "c08" => c05::run(&out, seed, thorough, &cmd),
         "c07" => c07::run(&out, seed, thorough),
         "c07-probe" => c07::probe(),
+        "c09" => c09::run(&out, seed, thorough),
+        "c09-probe" => c09::probe_main(&args),
+        "c09-tie" => c09::tie_main(&args, &out, seed, thorough),
+        "c09-stream" => c09::stream_main(&args, &out, seed, thorough),
         "c12" => c12::run(&out, seed, thorough),
         "c11" => c11::run(&out, seed, thorough),
         "c13" => c13::run(&out, seed, thorough),
